@@ -95,35 +95,51 @@ class C18(Prop):
     PROPS_FILE = "Props/C18.v"
     CORR_MODULE = "ProvGraph.Corr"
     LEVEL_TEXT = (
-        "Theorems (Coq, closed under the global context) over a model of ProvenanceGraph.build_graph and "
-        "GraphMapper.get_step_ids on top of the C20 graph model, for every provenance table, availability map, "
-        "recovering-job map and input list (unbounded): the built graph contains only provenance ancestors of the failed "
-        "job's inputs; a token gets predecessors only if it is unavailable (and not a job token of a job being recovered "
-        "elsewhere), so the search stops at available data; every non-input token of the graph is a direct dependee of a "
-        "lost token of the graph; with no data lost the graph is exactly the inputs with no edge; a step is selected only "
-        "if all its input ports and one of its output ports (other than the failed step's) carry graph tokens. "
-        "PARTIAL: create_graph_mapper / GraphMapper (_update_token, replace_token, move_token_to_root, remove_port) are "
-        "modelled and compared with the real classes (operation sequences; whole plans when no two graph tokens are "
-        "'equal') but no theorem is proved about them; the engine-level claim (execution counts of jobs in real recovered "
-        "runs) is not checked here.")
+        "Theorems (Coq, closed under the global context) over a model of ProvenanceGraph.build_graph, create_graph_mapper, "
+        "GraphMapper and GraphMapper.get_step_ids on top of the C20 graph model, for every provenance table, availability "
+        "map, recovering-job map, input list and set-iteration order (unbounded): the built graph contains only provenance "
+        "ancestors of the failed job's inputs reached through lost tokens; a token gets predecessors only if it is lost, so "
+        "the search stops at available data; every non-input token of the graph is a direct dependee of a lost token of the "
+        "graph; with no data lost the graph is exactly the inputs; every port of the mapper built by create_graph_mapper "
+        "carries a token of that graph, so a step selected by get_step_ids has graph tokens on all its input ports and on "
+        "an output port; a job step (private job port) is selected only if a LOST token of the graph sits on one of its "
+        "output ports; GraphMapper's add/move_token_to_root/replace_token/remove_port keep both graphs mirror-consistent, "
+        "token_availability and token_instances with the same keys and every listed token under its own single port. "
+        "Engine level (exercised, not proved): real workflows (scatter/gather and pipelines) run on the local deployment "
+        "with an injected soft or data-losing failure and real RollbackFailureManager recovery; every job executed more "
+        "than once must be the failing job or have its job token in the model's recovery graph computed from the "
+        "provenance dumped from the real database with independently recorded availability. "
+        "PARTIAL: no theorem that create_graph_mapper copies the graph edge by edge, nor about _update_token's effect on "
+        "the token graph when two tokens are 'equal' (compared with the real classes instead); _synchronize_workflows, "
+        "_populate_workflow, _inject_tokens and Step.restore are exercised by the engine runs only.")
     LEVEL_NOTE = (
         "Trusted: Coq kernel + vm_compute; hand-written models ProvGraph/Model.v and Graph/Model.v (tied to the code by "
-        "the correspondence run only); the database, Token.is_available and is_recovering are a finite table in the model "
-        "and stubs in the harness. Set iteration order is a model parameter: plans with 'equal' tokens (same port and "
-        "tag/job) are compared only up to build_graph. No axioms.")
-    TECHNIQUE = "Coq proof (BFS invariant over the explicit frontier) + vm_compute correspondence against the real classes"
-    RULE = ("plan: layered workflows (2..5 layers, 1..3 steps per layer, job steps with a private job port fed by a schedule "
-            "step, 1..3 tags), random availability / recovering flags, failed job = a job step and tag; some with duplicate "
-            "('re-executed') tokens, some soft failures, some unrecoverable. mapper: sequences of GraphMapper.add / "
-            "move_token_to_root / replace_token / remove_port over <=12 token ids sharing (port, tag). Non-trivial = plan "
-            "with >=1 lost token reached, or mapper sequence with >=1 replace/move. Distinct = distinct canonical JSON.")
-    TRUSTED = ("models: ProvGraph/Model.v, Graph/Model.v are hand-written; SQLite queries are replaced by a stub returning "
-               "rows; Token.is_available is the base-class one (recoverable flag); CPython dict/set are exercised only",)
+        "the correspondence run only); the database, Token.is_available and is_recovering are a finite table in the model; "
+        "function-level cases use stubs for them, engine-level cases dump the real in-memory SQLite database and record "
+        "availability as 'recoverable flag and files present on the local file system'. Set iteration order is a model "
+        "parameter: plans with 'equal' tokens (same port and tag/job) are compared only up to build_graph. The engine "
+        "scenarios are a handful of shapes, not a quantification over programs. No axioms.")
+    TECHNIQUE = ("Coq proof (BFS invariants over the explicit frontier/queue, key-set monotonicity of the mapper) + vm_compute "
+                 "correspondence against the real classes + real recovered runs judged against the model's permitted set")
+    RULE = ("engine: 4 (quick) / 10 (thorough) real recovered runs: scatter(11..13 or 21 wide)->job->gather->job and 3-job "
+            "pipelines, failure in the scattered or a later job, soft or deleting the files behind the failing job's inputs "
+            "1..3 provenance levels up, one or two failures; plan: layered workflows (2..5 layers, 1..3 steps per layer, "
+            "job steps with a private job port fed by a schedule step, 1..3 tags), random availability / recovering flags, "
+            "failed job = a job step and tag; some with duplicate ('re-executed') tokens, some soft failures, some "
+            "unrecoverable; mapper: sequences of GraphMapper.add / move_token_to_root / replace_token / remove_port over "
+            "<=12 token ids sharing (port, tag). Non-trivial = engine run with a failure, plan with >=1 lost input, mapper "
+            "sequence with >=1 replace/move. Distinct = distinct canonical JSON.")
+    TRUSTED = ("models: ProvGraph/Model.v, Graph/Model.v are hand-written; function-level cases replace SQLite by a stub "
+               "returning rows and use the base-class Token.is_available (recoverable flag); engine-level cases use the real "
+               "database, data manager, scheduler and failure manager with harness-defined steps/command (imitating "
+               "tests/utils/workflow.py); CPython dict/set are exercised only",)
     ASSUMPTIONS = ("token ids are positive; a port holds either only JobTokens or none",
-                   "is_available / is_recovering answers do not change during one build_graph call")
+                   "is_available / is_recovering answers do not change during one build_graph call",
+                   "engine runs: availability of a token = its recoverable flag and, for files, presence on the local file system")
     MAX_WORKERS = 6
     COQ_SHARD = 120
-    CASE_TIMEOUT = 30
+    CASE_TIMEOUT = 240
+    SHARD_TIMEOUT = 1500
 
     # ---------------------------------------------------------------- generation
     def _plan(self, rng):
@@ -240,9 +256,38 @@ class C18(Prop):
                 ops.append(["rmport", rng.randrange(1, nports + 1)])
         return {"f": "mapper", "ops": ops}
 
+    def _engine(self, rng, tier):
+        """a handful of real recovered runs (local deployment, in-memory database, RollbackFailureManager)"""
+        w = rng.choice([11, 12, 13])
+        scen = [
+            {"shape": "scatter", "width": w, "fail": {"step": "/b", "tag": "0.10", "kind": "loss", "times": 1, "depth": 1,
+                                                      "wait_siblings": w}},
+            {"shape": "scatter", "width": 12, "fail": {"step": "/b", "tag": f"0.{rng.choice([1, 2, 5])}", "kind": "soft",
+                                                       "times": 1, "wait_siblings": 12}},
+            {"shape": "pipeline", "width": 1, "fail": {"step": "/c", "tag": "0", "kind": "loss", "times": 1, "depth": 1}},
+            {"shape": "scatter", "width": rng.choice([3, 4, 6]),
+             "fail": {"step": "/b", "tag": "0.1", "kind": "loss", "times": 1, "depth": 1, "wait_siblings": None}},
+        ]
+        if tier != "quick":
+            scen += [
+                {"shape": "scatter", "width": 21, "fail": {"step": "/b", "tag": "0.20", "kind": "loss", "times": 1, "depth": 1,
+                                                           "wait_siblings": 21}},
+                {"shape": "scatter", "width": 12, "fail": {"step": "/b", "tag": "0.11", "kind": "soft", "times": 2,
+                                                           "wait_siblings": 12}},
+                {"shape": "pipeline", "width": 1, "fail": {"step": "/b", "tag": "0", "kind": "soft", "times": 1}},
+                {"shape": "pipeline", "width": 1, "fail": {"step": "/c", "tag": "0", "kind": "loss", "times": 1, "depth": 3}},
+                {"shape": "scatter", "width": 12, "fail": {"step": "/c", "tag": "0", "kind": "loss", "times": 1, "depth": 1}},
+                {"shape": "scatter", "width": 5, "fail": None},
+            ]
+        for sc in scen:
+            if sc["fail"] and sc["fail"].get("wait_siblings") is None:
+                sc["fail"].pop("wait_siblings", None)
+                sc["fail"]["wait_siblings"] = sc["width"] if sc["shape"] == "scatter" and sc["fail"]["step"] == "/b" else 0
+        return [{"f": "engine", **sc} for sc in scen]
+
     def gen(self, rng, tier):
-        n = {"quick": 500, "thorough": 5000, "extended": 3000}[tier]
-        cases = []
+        n = {"quick": 400, "thorough": 4000, "extended": 2500}[tier]
+        cases = self._engine(rng, tier)
         while len(cases) < n:
             c = self._plan(rng) if len(cases) % 5 != 4 else self._mapper(rng)
             if c:
@@ -328,7 +373,36 @@ class C18(Prop):
             steps.append(self._mobs(m))
         return {"steps": steps}
 
+    def _run_engine(self, c):
+        import os
+        import shutil
+
+        from harness.props import c18_engine as E
+
+        base = f"/var/tmp/sfv-c18-engine-{os.getpid()}"
+        self._engine_n = getattr(self, "_engine_n", 0) + 1
+        sc = dict(c, key=f"s{self._engine_n}")
+        try:
+            o = asyncio.run(E.run_scenario(sc, base))
+        finally:
+            shutil.rmtree(base, ignore_errors=True)
+        # canonical numbering of port names, tags and job names (no uuids in the observation)
+        ports, tags, jobs = {}, {}, {}
+        num = lambda m, k: m.setdefault(k, len(m) + 1)
+        evs = []
+        for e in o["events"]:
+            db = [{"id": t["id"], "port_id": t["port_id"], "port": num(ports, t["pname"]), "tag": num(tags, t["tag"]),
+                   "tagstr": t["tag"], "job": None if t["jobname"] is None else num(jobs, t["jobname"]),
+                   "jobname": t["jobname"], "avail": t["avail"], "recovering": t["recovering"], "deps": t["deps"]}
+                  for t in e["db"]]
+            evs.append({"inputs": e["inputs"], "db": db, "graph": e["graph"]})
+        want = [f"element {i}\n" for i in range(c["width"])]
+        return {"status": o["status"], "counts": o["counts"], "events": evs, "result_ok": o["result"] == want,
+                "lost_paths": len(o["lost_paths"])}
+
     def impl_run(self, c):
+        if c["f"] == "engine":
+            return self._run_engine(c)
         if c["f"] == "plan":
             return asyncio.run(self._run_plan(c))
         return self._run_mapper(c)
@@ -337,6 +411,8 @@ class C18(Prop):
     def oracle(self, c, o):
         if "crash" in o or "hang" in o:
             return ("crash", f"implementation crashed/hung: {str(o)[:400]}")
+        if c["f"] == "engine":
+            return self._engine_oracle(c, o)
         if c["f"] != "plan":
             return None   # GraphMapper operation sequences are judged by the correspondence only
         tok = {t["id"]: t for t in c["db"]}
@@ -380,6 +456,36 @@ class C18(Prop):
                                                           f"the tokens on its output ports {sorted(outs)} in the graph is lost")
         return None
 
+    def _engine_facts(self, c, o):
+        """(failed job name, {re-executed job: count}, permitted job names) -- permitted from the property text:
+        jobs whose job token is a provenance ancestor, reached through lost tokens only, of the inputs of a failed job"""
+        failed = None if not c["fail"] else f"{c['fail']['step']}/{c['fail']['tag']}"
+        permitted = set()
+        for e in o["events"]:
+            tok = {t["id"]: t for t in e["db"]}
+            for x in _reach_through_lost(tok, e["inputs"]):
+                if tok[x]["jobname"] is not None:
+                    permitted.add(tok[x]["jobname"])
+        rerun = {j: n for j, n in o["counts"].items() if n > 1}
+        return failed, rerun, permitted
+
+    def _engine_oracle(self, c, o):
+        if o["status"] != "COMPLETED" or not o["result_ok"]:
+            return ("engine-run", f"recovered run ended {o['status']}, result correct: {o['result_ok']}")
+        failed, rerun, permitted = self._engine_facts(c, o)
+        times = c["fail"]["times"] if c["fail"] else 0
+        if failed is not None and o["counts"].get(failed, 0) != times + 1:
+            return ("failed-job-count", f"{failed} failed {times} time(s) but ran {o['counts'].get(failed, 0)} times")
+        for j, n in sorted(rerun.items()):
+            if j != failed and j not in permitted:
+                return ("rerun-not-permitted", f"job {j} ran {n} times although it is not the failing job {failed} and is "
+                                               f"not a producer of lost data needed by it (permitted: {sorted(permitted)})")
+            if j != failed and n > 1 + len(o["events"]):
+                return ("rerun-too-often", f"job {j} ran {n} times for {len(o['events'])} recovery plan(s)")
+        if failed is None and rerun:
+            return ("rerun-without-failure", f"jobs re-executed without any failure: {rerun}")
+        return None
+
     # ---------------------------------------------------------------- model side
     def _tok(self, t):
         return (f"(mkTok {coq_N(t['id'])} {coq_N(t['port_id'])} {coq_N(t['port'])} {coq_N(t['tag'])} "
@@ -404,6 +510,20 @@ class C18(Prop):
         if "crash" in o or "hang" in o:
             return None
         ns = lambda l: coq_list([coq_N(x) for x in l])
+        if c["f"] == "engine":
+            failed, rerun, _ = self._engine_facts(c, o)
+            evs = []
+            for e in o["events"]:
+                g = e["graph"]
+                bt = "BObsErr" if g is None else (
+                    f"(BObsOk {ns(g['nodes'])} {coq_list([f'({coq_N(u)},{coq_N(v)})' for u, v in g['edges']])} "
+                    f"{coq_list([f'({coq_N(k)},{coq_bool(v)})' for k, v in g['avail']])})")
+                evs.append(f"({coq_list([self._tok(t) for t in e['db']])}, {ns(e['inputs'])}, {bt})")
+            ids = []
+            for j in sorted(rerun):
+                if j != failed:
+                    ids.append(ns(sorted({t["id"] for e in o["events"] for t in e["db"] if t["jobname"] == j})))
+            return f"CEngine {coq_list(evs)} {coq_list(ids)}"
         if c["f"] == "plan":
             b = o["build"]
             if b == "err":
@@ -432,6 +552,8 @@ class C18(Prop):
         return f"CMapper {coq_list(terms)}"
 
     def nontrivial(self, c):
+        if c["f"] == "engine":
+            return c["fail"] is not None
         if c["f"] == "plan":
             tok = {t["id"]: t for t in c["db"]}
             return any(not tok[i]["avail"] for i in c["inputs"])
@@ -441,6 +563,8 @@ class C18(Prop):
         return f"{c['f']}/{clause}"
 
     def shrink(self, c):
+        if c["f"] == "engine":
+            return
         if c["f"] == "plan":
             for i, t in enumerate(c["db"]):
                 if not t["avail"]:
